@@ -103,6 +103,7 @@ Lemma deliver_nonempty : forall p log, p <> [] -> deliver p log = p :: log.
 Proof. intros [|x p] log H; [congruence|reflexivity]. Qed.
 
 (* ---- the key state machine --------------------------------------------------- *)
+Ltac ands := repeat match goal with |- _ /\ _ => split end.
 Section Agreement.
   Variables priv point : Type.
   Variable pub : priv -> point.
@@ -155,7 +156,7 @@ Section Agreement.
   Lemma inv_init : forall k0 s0, inv (init pub k0 s0).
   Proof. intros. unfold inv, init. cbn. repeat split; intros; discriminate. Qed.
 
-  Local Opaque zero_share fill_shared xor_op.
+  Local Opaque zero_share fill_shared xor_op is_synced.
 
   Lemma inv_step : forall e s, lossless_event e = true -> inv s -> inv (step e s).
   Proof.
@@ -193,7 +194,7 @@ Section Agreement.
         destruct m as [pb|body|pb under|body under].
         * destruct I as [_ I]. split; [reflexivity|exact I].
         * destruct I as [Hn _]. split; [exact Hn|]. intros H; discriminate H.
-        * destruct I as [k [Hn [Hp [Hu _]]]]. exists k. repeat split; try assumption. intros H; discriminate H.
+        * destruct I as [k [Hn [Hp [Hu _]]]]. exists k. repeat split; try assumption; discriminate.
         * contradiction.
     - (* reply in flight *)
       destruct I as [Hw I]. subst w.
@@ -214,9 +215,9 @@ Section Agreement.
       + (* Forget *)
         split; [reflexivity|].
         destruct d as [pb| |body].
-        * destruct I as [Hz [Hn _]]. repeat split; try assumption; intros H; discriminate H.
+        * destruct I as [Hz [Hn _]]. repeat split; try assumption; discriminate.
         * reflexivity.
-        * destruct cn; intros H; discriminate H.
+        * destruct cn; intros HH; discriminate HH.
       + (* Reregister *)
         destruct d as [pb| |body]; cbn; try (split; [reflexivity|]; exact I).
         unfold send, key_session_generate, key_check_sync. cbn.
@@ -224,15 +225,13 @@ Section Agreement.
         destruct cn; reflexivity.
     - (* idle *)
       destruct I as [Hw [Hn Hs]]. subst w cn.
-      destruct e; try discriminate L; unfold inv; cbn; try (repeat split; [exact Hs]).
+      destruct e; try discriminate L; unfold inv; cbn; try (ands; try reflexivity; exact Hs).
       + (* Hello *)
-        destruct sr; cbn.
-        * repeat split. exact Hs.
-        * repeat split.
+        destruct sr; cbn; ands; try reflexivity; try exact Hs.
       + (* RekeySend *)
-        split; [reflexivity|]. exists k. repeat split. exact Hs.
+        split; [reflexivity|]. exists k. ands; try reflexivity. exact Hs.
       + (* Forget *)
-        repeat split; intros H; discriminate H.
+        ands; try reflexivity. discriminate.
   Qed.
 
   Lemma inv_run : forall h s, lossless h = true -> inv s -> inv (run h s).
